@@ -307,3 +307,72 @@ Theorem resize_general_layer_refuted :
   = [:: [:: 0; 0; 0]; [:: 0; 7; 0]; [:: 0; 0; 0]]%N.
 Proof. exact resize_general_layer_witness. Qed.
 Print Assumptions resize_general_layer_refuted.
+
+(* ---- population level (C19/PopProofs.v): members are created by cloning, every operation acts on one member ---- *)
+From AgileV Require Import C19.PopProofs.
+
+(* every member of the population is the founder run through ITS OWN lineage (ancestors' operations before each clone,
+   then its own) — for every sequence of member operations and clonings, any carrier *)
+Theorem pop_lineage : forall (T : Type) (zero one : T) (add sub mul div : T -> T -> T) (rr : bool) (s0 : @bstate T)
+  (pos : seq (@pop_op T)) (j : nat),
+  List.length (prun zero one add sub mul div rr s0 pos) = List.length (lineages pos) /\
+  List.nth j (prun zero one add sub mul div rr s0 pos) s0 = run zero one add sub mul div rr s0 (List.nth j (lineages pos) [::]).
+Proof. exact @pop_lineage_lemma. Qed.
+Print Assumptions pop_lineage.
+
+(* frame: an operation on member i leaves every other member unchanged (no aliasing between parent and clone) *)
+Theorem pop_frame : forall (T : Type) (zero one : T) (add sub mul div : T -> T -> T) (rr : bool) (s0 : @bstate T)
+  (pop : seq (@bstate T)) (i : nat) (o : @op T) (j : nat),
+  j <> i -> List.nth j (pstep zero one add sub mul div rr s0 pop (On i o)) s0 = List.nth j pop s0.
+Proof. exact @pop_frame_lemma. Qed.
+Print Assumptions pop_frame.
+
+(* a clone joins with a copy of its parent's matrix and every existing member keeps its state *)
+Theorem pop_clone : forall (T : Type) (zero one : T) (add sub mul div : T -> T -> T) (rr : bool) (s0 : @bstate T)
+  (pop : seq (@bstate T)) (i : nat),
+  (i < List.length pop)%coq_nat ->
+  sig (List.nth (List.length pop) (pstep zero one add sub mul div rr s0 pop (CloneOf i)) s0) = sig (List.nth i pop s0) /\
+  forall j, (j < List.length pop)%coq_nat -> List.nth j (pstep zero one add sub mul div rr s0 pop (CloneOf i)) s0 = List.nth j pop s0.
+Proof. exact @pop_clone_lemma. Qed.
+Print Assumptions pop_clone.
+
+(* so each member's matrix is the Sherman–Morrison run, for its current lambda, over the features chosen in its own lineage
+   since its last initialisation *)
+Theorem pop_member_sigma : forall (T : Type) (zero one : T) (add sub mul div : T -> T -> T) (rr : bool) (l : T) (ly : layer)
+  (pos : seq (@pop_op T)) (j : nat),
+  let h := List.nth j (lineages pos) [::] in
+  List.forallb no_resize h = true -> lam_clean h = true ->
+  sig (List.nth j (prun zero one add sub mul div rr (init_params zero one div l ly) pos) (init_params zero one div l ly)) =
+  sigma_run zero one add sub mul div (cur_lam l h) (segment ly h).1 (segment ly h).2.
+Proof. exact @pop_member_sigma_lemma. Qed.
+Print Assumptions pop_member_sigma.
+
+(* non-vacuity: founder decides, is cloned, parent and clone decide differently, the clone is mutated (new lambda) and cloned *)
+Example pop_nonvacuous :
+  let pos : seq (@pop_op rat) := [:: On 0 (Act [:: 1; 0; 1]); CloneOf 0; On 0 (Act [:: 0; 1; 1]); On 1 (Act [:: 1; 1; 1]);
+                                    On 1 (SetLam 2%:R); On 1 (MutHook (lin 3)); CloneOf 1; On 2 (Act [:: 1; 0; 0; 1])] in
+  lineages pos = [:: [:: Act [:: 1; 0; 1]; Act [:: 0; 1; 1]];
+                     [:: Act [:: 1; 0; 1]; Clone; Act [:: 1; 1; 1]; SetLam 2%:R; MutHook (lin 3)];
+                     [:: Act [:: 1; 0; 1]; Clone; Act [:: 1; 1; 1]; SetLam 2%:R; MutHook (lin 3); Clone; Act [:: 1; 0; 0; 1]]] /\
+  List.forallb (fun h => List.forallb no_resize h && lam_clean h) (lineages pos) = true.
+Proof. by []. Qed.
+
+(* ---- the whole tail of get_action over any real field: choose the arm, update with THAT arm's feature (C19/Refine.v) ---- *)
+Theorem decide_spec : forall (F : realFieldType) (n : nat) (A : 'M[F]_n) (S : seq (seq F)) (arms : seq (seq F))
+  (vals : seq F) (legal : seq bool),
+  wf n S -> A *m mx_of n S = 1%:M -> (forall x, 0 <= qform (mx_of n S) x) ->
+  all (fun g => size g == n) arms -> size arms = size vals -> List.length vals = List.length legal ->
+  (exists j, (j < List.length vals)%coq_nat /\ List.nth j legal false = true) ->
+  let a := (decide S arms vals legal).1 in
+  let g := cv_of n (nth [::] arms a) in
+  [/\ (a < size vals)%N, List.nth a legal false = true,
+      forall j, (j < List.length vals)%coq_nat -> List.nth j legal false = true -> (List.nth a vals 0 < List.nth j vals 0) = false
+    & (A + g *m g^T) *m mx_of n (decide S arms vals legal).2 = 1%:M].
+Proof. exact Refine.decide_spec. Qed.
+Print Assumptions decide_spec.
+
+(* non-vacuity: 2x2 identity, three arms, arm 1 has the largest value but is masked: arm 2 is returned *)
+Example decide_nonvacuous :
+  (@decide rat_realFieldType [:: [:: 1; 0]; [:: 0; 1]] [:: [:: 1; 0]; [:: 0; 1]; [:: 1; 1]] [:: 1; 3%:R; 2%:R] [:: true; false; true]).1 = 2%N :> nat
+  /\ wf 2 [:: [:: 1; 0]; [:: 0; (1 : rat)]].
+Proof. by []. Qed.
